@@ -9,7 +9,9 @@ CONSTANTS TraceFile, Props
 TraceLog == ndJsonDeserialize(TraceFile)
 VARIABLES l, cnt
 vars == <<l, cnt>>
-Want(kind) == IF kind = "auth" THEN "auth" ELSE IF kind = "token" THEN "enrolled" ELSE IF kind \in {"baseA", "baseB"} THEN "base" ELSE "rejected"
+\* "poll": a node that is not authorised (yet) asks for its credentials: refused; "tokenSame": THE SAME node identity then
+\* (or meanwhile) presents an activation token: enrolled - two requests of one key are still two requests
+Want(kind) == IF kind = "auth" THEN "auth" ELSE IF kind \in {"token", "tokenSame"} THEN "enrolled" ELSE IF kind \in {"baseA", "baseB"} THEN "base" ELSE "rejected"
 Viols(e) ==
   LET o == e.obs IN
   (IF e.res = "panic" THEN {"panic"} ELSE {}) \cup
